@@ -54,3 +54,63 @@ pub open spec fn denial_event(tcp: TcpConnectionContext, status: http::StatusCod
     FailEv { user: c.userName@, cmd: c.processCmdLine@, exe: c.processFullPath, dest_ip: ip_string(tcp.destination_ip->0),
              dest_port: tcp.destination_port, client_ip: c.clientIp@, status: status_text(status) }
 }
+
+// ---- C05 / C14 / C15 / C04-G6: what the host must receive for a client request ---------------------------------
+// the client's request as the listener received it (ghost copy taken at the top of the handler)
+pub ghost struct FwdSpec {
+    pub method: http::Method,
+    pub uri: http::Uri,
+    pub headers0: Map<Seq<char>, Seq<http::header::HeaderValue>>,   // client headers: lower-case name -> values
+    pub body: Option<Seq<u8>>,                                      // all body bytes, None if reading failed / limit exceeded
+    pub elevated: bool,                                             // the attributed caller runs elevated
+}
+pub uninterp spec fn body_bytes<B>(b: B) -> Option<Seq<u8>>;       // bytes a (limited) request body yields when collected
+pub open spec fn fwd_spec_of(request: http::Request<tower_http::body::Limited<hyper::body::Incoming>>, elevated: bool) -> FwdSpec {
+    FwdSpec { method: req_method(request), uri: req_uri(request), headers0: hm_view(req_headers(request)),
+              body: body_bytes(req_body(request)), elevated: elevated }
+}
+pub open spec fn CLAIMS_H() -> Seq<char> { "x-ms-azure-host-claims"@ }
+pub open spec fn DATE_H() -> Seq<char> { "x-ms-azure-host-date"@ }
+pub open spec fn AUTH_H() -> Seq<char> { "x-ms-azure-host-authorization"@ }
+// the claims header the proxy produces: { "isRoot": "<true|false>"}
+pub open spec fn claims_json(elevated: bool) -> Seq<char> {
+    "{ \""@ + "isRoot"@ + "\": \""@ + (if elevated { "true"@ } else { "false"@ }) + "\"}"@
+}
+pub open spec fn one_value(h: Map<Seq<char>, Seq<http::header::HeaderValue>>, name: Seq<char>) -> bool {
+    h.contains_key(name) && h[name].len() == 1
+}
+// C05: exactly one claims header and one date header, both produced by the proxy
+pub open spec fn proxy_headers_ok(h: Map<Seq<char>, Seq<http::header::HeaderValue>>, elevated: bool) -> bool {
+    &&& one_value(h, CLAIMS_H()) && hv_view(h[CLAIMS_H()][0]) == claims_json(elevated)
+    &&& one_value(h, DATE_H()) && is_current_date(hv_view(h[DATE_H()][0]))
+}
+// C14: every client header other than the three proxy-owned ones is unchanged
+pub open spec fn client_headers_kept(h: Map<Seq<char>, Seq<http::header::HeaderValue>>, h0: Map<Seq<char>, Seq<http::header::HeaderValue>>) -> bool {
+    forall|n: Seq<char>| n != CLAIMS_H() && n != DATE_H() && n != AUTH_H() ==>
+        (#[trigger] h.contains_key(n) == h0.contains_key(n)) && (h0.contains_key(n) ==> h[n] == h0[n])
+}
+// the authorization header: either the request is not signed and the name is as the client sent it, or it is
+// signed: exactly one value `Azure-HMAC-SHA256 <guid> <mac>` where mac is computed under `key` over the canonical
+// string of (method, uri, all headers before adding the authorization header, body)
+pub open spec fn auth_unsigned(h: Map<Seq<char>, Seq<http::header::HeaderValue>>, h0: Map<Seq<char>, Seq<http::header::HeaderValue>>) -> bool {
+    h.contains_key(AUTH_H()) == h0.contains_key(AUTH_H()) && (h0.contains_key(AUTH_H()) ==> h[AUTH_H()] == h0[AUTH_H()])
+}
+pub open spec fn sig_value(guid: Seq<char>, key: Seq<char>, m: http::Method, u: http::Uri, hm: http::HeaderMap, body: Seq<u8>) -> Seq<char> {
+    "Azure-HMAC-SHA256"@ + " "@ + guid + " "@ + mac_spec(key, sig_input_spec(m, u, hm, body))
+}
+pub open spec fn auth_signed(request: http::Request<http_body_util::Full<hyper::body::Bytes>>, guid: Seq<char>, key: Seq<char>) -> bool {
+    let h = hm_view(req_headers(request));
+    &&& one_value(h, AUTH_H())
+    &&& exists|pre: http::HeaderMap| hm_view(pre).remove(AUTH_H()) == h.remove(AUTH_H())
+            && #[trigger] hv_view(h[AUTH_H()][0]) == sig_value(guid, key, req_method(request), req_uri(request), pre, full_view(req_body(request)))
+}
+// the request handed to the upstream write primitive, relative to what the client sent
+pub open spec fn fwd_ok(request: http::Request<http_body_util::Full<hyper::body::Bytes>>, orig: FwdSpec) -> bool {
+    let h = hm_view(req_headers(request));
+    &&& req_method(request) == orig.method                       // C14
+    &&& req_uri(request) == orig.uri                             // C14
+    &&& orig.body == Some(full_view(req_body(request)))          // C14 + C15: the whole body was read within the limit, and it is what is sent
+    &&& proxy_headers_ok(h, orig.elevated)                       // C05
+    &&& client_headers_kept(h, orig.headers0)                    // C14
+    &&& (auth_unsigned(h, orig.headers0) || exists|guid: Seq<char>, key: Seq<char>| #[trigger] auth_signed(request, guid, key))   // C05 / C04
+}
